@@ -110,3 +110,108 @@ def write_script(path, cmds):
     with open(path, "w") as f:
         for c in cmds:
             f.write(json.dumps(c, separators=(",", ":")) + "\n")
+
+
+# ---------------------------------------------------------------------------------------------- optimizer scripts
+def lift_dof(D, idx):
+    return max(1, D - 1 - (idx % 2))
+
+
+def lift_M(j, k):
+    return (((j + 2 * k) % 3) - 1) * 0.5
+
+
+def lift_physical(D, xi, idx, gain):
+    dof = lift_dof(D, idx)
+    p = []
+    for j in range(D):
+        if j < dof:
+            p.append(xi[j])
+        else:
+            p.append(gain * (idx + 1) + sum(lift_M(j, k) * xi[k] for k in range(dof)))
+    return p
+
+
+def opt_layout(order, D, N, flags, sm):
+    """(number of decision variables, list of (point index, dof), list of derivative block names)"""
+    s = (order + 1) // 2
+    pts = [i for i in range(N + 1) if (0 < i < N) or (i == 0 and flags[0]) or (i == N and flags[4])]
+    dofs = [(i, D if sm == "id" else lift_dof(D, i)) for i in pts]
+    blocks = []
+    for nm, on, d in (("sv", flags[1], 1), ("sa", flags[2], 2), ("sj", flags[3], 3), ("ev", flags[5], 1), ("ea", flags[6], 2), ("ej", flags[7], 3)):
+        if on and d <= s - 1:
+            blocks.append(nm)
+    return N + sum(d for _, d in dofs) + len(blocks) * D, dofs, blocks
+
+
+def quad_totime(tau):
+    return (0.5 * tau + 1.0) * tau + 1.0 if tau > 0 else 1.0 / ((0.5 * tau - 1.0) * tau + 1.0)
+
+
+class OptProblem:
+    """a reference problem + configuration for one optimizer"""
+    def __init__(self, r, order, D, N, tm, sm, flags=None, K=None, rho=None, scale=1.0, gain=0.25, t0=None):
+        self.order, self.D, self.N, self.tm, self.sm = order, D, N, tm, sm
+        self.flags = flags if flags is not None else [r.random() < 0.5 for _ in range(8)]
+        self.K = K if K is not None else r.choice([1, 2, 3, 8])
+        self.rho = rho if rho is not None else r.choice([0.0, 0.5, 2.0])
+        self.scale, self.gain = scale, gain
+        self.t0 = r.choice([0.0, 1.5, -2.25]) if t0 is None else t0
+        self.taus_ref = [r.dyadic(-0.5, 0.5, 8) for _ in range(N)]
+        self.T = [self.totime(t) for t in self.taus_ref]
+        xi = [[r.dyadic(-4, 4, 4) for _ in range(D)] for _ in range(N + 1)]
+        if sm == "id":
+            self.P = xi
+        else:
+            self.P = [lift_physical(D, xi[i][:lift_dof(D, i)], i, gain) for i in range(N + 1)]
+        self.bc = {k: [r.dyadic(-2, 2, 4) for _ in range(D)] for k in ("sv", "sa", "sj", "ev", "ea", "ej")}
+        self.dim, self.dofs, self.blocks = opt_layout(order, D, N, self.flags, sm)
+
+    def totime(self, tau):
+        return quad_totime(tau) if self.tm == "quad" else self.scale * (tau * tau + 1.0)
+
+    def relayout(self):
+        self.dim, self.dofs, self.blocks = opt_layout(self.order, self.D, self.N, self.flags, self.sm)
+
+    def x(self, r, kind="grid"):
+        """a decision vector: dyadic time variables in [-1/2, 1/2] (durations stay well scaled), dyadic others"""
+        n = self.dim
+        xs = [r.dyadic(-0.5, 0.5, 8) for _ in range(self.N)]
+        if kind == "marker":
+            xs += [(17 + q) / 8.0 for q in range(n - self.N)]
+        else:
+            xs += [r.dyadic(-4, 4, 4) for _ in range(n - self.N)]
+        return xs
+
+    def cmds_setup(self, obj, user_tmap=None, user_smap=None, how="durs"):
+        c = [{"op": "opt_new", "obj": obj, "order": self.order, "dim": self.D, "tm": self.tm, "sm": self.sm}]
+        if user_tmap is not None:
+            c.append({"op": "set_tmap", "obj": obj, "map": user_tmap})
+        if user_smap is not None:
+            c.append({"op": "set_smap", "obj": obj, "map": user_smap})
+        c.append(self.cmd_init(obj, how))
+        c.append({"op": "set_flags", "obj": obj, "flags": [bool(f) for f in self.flags]})
+        c.append({"op": "set_energy", "obj": obj, "rho": hx(self.rho)})
+        c.append({"op": "set_steps", "obj": obj, "K": self.K})
+        return c
+
+    def cmd_init(self, obj, how="durs"):
+        c = {"op": "set_init", "obj": obj, "how": how, "P": hm(self.P), "bc": {k: hv(v) for k, v in self.bc.items()}}
+        if how == "durs":
+            c["T"], c["t0"] = hv(self.T), hx(self.t0)
+        else:
+            tp = [self.t0]
+            for t in self.T:
+                tp.append(tp[-1] + t)
+            c["tp"] = hv(tp)
+        return c
+
+
+def cost_params(r, lie=None):
+    c = {"ta": r.dyadic(-1, 1, 4), "tb": r.dyadic(0, 1, 4), "tc": r.dyadic(-0.5, 0.5, 8), "ww": r.dyadic(0.125, 1, 8), "wc0": r.dyadic(-1, 1, 2),
+         "ap": r.dyadic(0, 0.5, 16), "av": r.dyadic(0.0625, 0.5, 16), "aa": r.dyadic(0, 0.25, 16), "aj": r.dyadic(0, 0.125, 32), "as": r.dyadic(0, 0.0625, 64),
+         "beta": r.dyadic(-0.25, 0.25, 8), "gamma": r.dyadic(-0.25, 0.25, 8), "delta": r.dyadic(0, 0.25, 8), "eps": r.dyadic(0, 0.125, 16)}
+    out = {k: hx(v) for k, v in c.items()}
+    if lie:
+        out.update({"lie_which": lie[0], "lie_i": lie[1], "lie_c": lie[2], "lie": hx(lie[3])})
+    return out
